@@ -47,10 +47,21 @@ def parse_bed12(text):
 def check_bed(res, kind, exons, strand, cds, window, chrom_mode, menu, N):
     """kind: 'tx' | 'feat'; cds: None or (c0,c1) transcript coords; window: None (no parent) | 'chrom' | (a,b)"""
     genome = GENOME[:N]
+    minus_chunk = isinstance(window, tuple) and len(window) == 3
     if window is None:
         parent = None
     elif window == "chrom":
         parent = lib.chrom_parent(genome)
+    elif minus_chunk:
+        # a chunk placed on the MINUS strand of the chromosome (seq_chunk_to_parent(strand=MINUS)); only the
+        # chromosome-coordinate record is judged there (what "chunk coordinates" mean on a reversed chunk is not documented)
+        from inscripta.biocantor.io.parser import seq_chunk_to_parent
+
+        a_, b_ = window[0], window[1]
+        text = F.splice(genome, list(range(b_ - 1, a_ - 1, -1)), "-")
+        parent = seq_chunk_to_parent(text, "chrV", a_, b_, strand=lib.STRAND["-"])
+        if not chrom_mode:
+            return
     else:
         parent = lib.chunk_parent(genome, window[0], window[1])
     case = dict(kind=kind, exons=[list(b) for b in exons], strand=strand, cds=list(cds) if cds else None,
@@ -72,9 +83,22 @@ def check_bed(res, kind, exons, strand, cds, window, chrom_mode, menu, N):
             name_arg, exp_name = "feature_name", "sym"
         elif name_arg == "transcript_id":
             name_arg, exp_name = "feature_id", "tid"
-    o = lib.outcome(lambda: str(obj.to_bed12(score=score, rgb=RGB(*rgb), name=name_arg, chromosome_relative_coordinates=chrom_mode)))
+    def render():
+        rec = obj.to_bed12(score=score, rgb=RGB(*rgb), name=name_arg, chromosome_relative_coordinates=chrom_mode)
+        first = str(rec)
+        # a record is a value: rendering it again, after reading its fields, gives the same line
+        _ = (list(rec.block_sizes), list(rec.block_starts), rec.block_count)
+        second = str(rec)
+        if first != second:
+            raise AssertionError(f"str(BED12) not repeatable: {first!r} then {second!r}")
+        return first
+
+    o = lib.outcome(render)
     res.trans()
-    is_chunk = isinstance(window, tuple)
+    if o[0] == "exc" and isinstance(o[2], AssertionError):
+        res.deviation("to_bed12", case, str(o[2])[:200], "same line on every rendering", sig="bed-not-repeatable")
+        return
+    is_chunk = isinstance(window, tuple)  # (minus-strand chunks reach this point in chromosome mode only)
     if not chrom_mode and not is_chunk:
         # documented: NoSuchAncestorException when there is no sequence_chunk ancestor ... (not enforced for BED
         # by the docstring of every class; accept a documented exception or chromosome coordinates)
@@ -150,14 +174,14 @@ def run_shard(shard):
             continue
         lo, hi = exons[0][0], exons[-1][1]
         ln = sum(e - s for s, e in exons)
-        wins = [None, "chrom"] + [(a, b) for a in range(0, lo + 1) for b in range(hi, N + 1)]
+        wins = [None, "chrom"] + [(a, b) for a in range(0, lo + 1) for b in range(hi, N + 1)] + [(a, b, "-") for a in (0, lo) for b in (hi, N)]
         for strand in "+-":
             placements = [None] + [(c0, c1) for c0 in range(ln) for c1 in range(c0 + 1, ln + 1)]
             for win in wins:
                 for chrom_mode in (True, False):
                     for mi, menu in enumerate(MENUS):
                         # the menu only matters for the text columns: run the full menu on the first window only
-                        if mi > 0 and win not in (None, "chrom"):
+                        if mi > 0 and win not in (None, "chrom"):  # noqa
                             continue
                         check_bed(res, "feat", exons, strand, None, win, chrom_mode, menu, N)
                         for cds in placements:
